@@ -11,6 +11,11 @@ use wtransport::quinn;
 /// per stream i: args[1+2i] = [kind(0 uni,1 bi), cut, pause_ms, end(0 FIN,1 RESET,2 leave open), end_code]
 ///               args[2+2i] = bytes
 pub async fn exec(a: &Args) -> Args {
+    exec_traced(a).await.0
+}
+
+/// the scenario, plus quinn's stable id of the library-side connection (None: no connection)
+pub async fn exec_traced(a: &Args) -> (Args, Option<usize>) {
     let (delay, tasks, cancel, exp_uni, exp_bi) = (a[0][0], a[0][1].max(1), a[0][2], a[0][3] as usize, a[0][4] as usize);
     let n = (a.len() - 1) / 2;
     // a[0][5] = 1: the library is the client and the raw peer (the server) opens the streams
@@ -21,7 +26,7 @@ pub async fn exec(a: &Args) -> Args {
     let (conn, raw) = if client_role {
         match client_establish("/st", None).await {
             Ok((c, r, rep, cl)) => { g_raw = Some(rep); g_client = Some(cl); (c, r) }
-            Err(_) => return vec![vec![2]],
+            Err(_) => return (vec![vec![2]], None),
         }
     } else {
         let (server, addr) = wt_server(None);
@@ -31,9 +36,10 @@ pub async fn exec(a: &Args) -> Args {
         g_raw = Some(ep);
         match (app, raw) {
             (Ok(c), Ok(r)) => (c, r),
-            _ => return vec![vec![2]],
+            _ => return (vec![vec![2]], None),
         }
     };
+    let stable = conn.stable_id();
     // the application: `tasks` accepting tasks per kind, optional delay before each accept,
     // optional cancellation of pending accepts (timeout 3ms, reissued)
     let (tx, mut rx) = tokio::sync::mpsc::unbounded_channel::<(u64, Vec<u8>, Vec<u64>)>();
@@ -265,7 +271,7 @@ pub async fn exec(a: &Args) -> Args {
     if let Some(s) = &g_server { s.close(vi(0), b""); }
     if let Some(e) = &g_raw { e.close(qvi(0), b""); }
     if let Some(c) = &g_client { c.close(vi(0), b""); }
-    out
+    (out, Some(stable))
 }
 
 pub fn oracle(a: &Args, out: &Args) -> Option<(&'static str, String)> {
